@@ -10,5 +10,6 @@ CONSTANTS
   RspData <- MCRspData1
   MaxReq = 2
   MaxDrain = 1
+  Deviations = {}
 PROPERTIES Progress DrainProgress
 CHECK_DEADLOCK FALSE
